@@ -2033,6 +2033,8 @@ func (mgr *Manager) detachConverterFromTag(tag *tag, tagName string, converter *
 		if err := converter.Reset(); err != nil {
 			return err
 		}
+		// and forget queued streams that this tag doesn't match anymore
+		mgr.streamsToConvert[converter.Name()] = &bitmask.LongBitmask{}
 		// tags with data filters might have matched on them
 		mgr.invalidateDataTags(mgr.allStreams)
 		mgr.startTaggingJobIfNeeded()
